@@ -33,8 +33,12 @@ const B_SBIG: usize = 8;
 const B_CONT2: usize = 9;
 const B_Z2: usize = 10;
 const B_HASH0: usize = 11;
+const B_NOFCS: usize = 13;
+const B_BIGFILE: usize = 14;
 
-pub const NCALLS: usize = 19;
+pub const NCALLS: usize = 21;
+/// call that processes a 20 MiB input: only used as the first element of two-call histories
+pub const BIG_CALL: usize = 20;
 
 impl Inputs {
     pub fn build(s: &dyn Subject) -> Inputs {
@@ -61,11 +65,29 @@ impl Inputs {
         let z2 = s.compress_zstd(&fpng).unwrap_or_default();
         let mut blobs = vec![fsmall, fpng, cont, s1, plain, corr, z, fbig, sbig, cont2, z2];
         blobs.extend(forced_hash_inputs(s));
+        // the expanded form of the small file as a hand-made zstd frame: no content size in the header,
+        // one raw block (valid zstd input that compress_zstd itself never writes)
+        let c = blobs[B_CONT].clone();
+        let mut nofcs = vec![0x28, 0xb5, 0x2f, 0xfd, 0x00, 0x38];
+        let bh = ((c.len() as u32) << 3) | 1;
+        nofcs.extend_from_slice(&bh.to_le_bytes()[..3]);
+        nofcs.extend_from_slice(&c);
+        blobs.push(nofcs);
+        // 20 MiB of signature-free, moderately compressible bytes
+        let unit = text_family(6, 1 << 16);
+        let big: Vec<u8> = unit.iter().cycle().take(20 << 20).cloned().collect();
+        blobs.push(big);
         Inputs { blobs }
     }
     pub fn save(&self, path: &str) {
+        self.save_opt(path, false)
+    }
+    /// `with_big`: include the 20 MiB blob (only the child that runs the big call needs it)
+    pub fn save_opt(&self, path: &str, with_big: bool) {
         let mut out = Vec::new();
-        for b in &self.blobs {
+        let empty: Vec<u8> = Vec::new();
+        for (k, b) in self.blobs.iter().enumerate() {
+            let b = if k == B_BIGFILE && !with_big { &empty } else { b };
             out.extend_from_slice(&(b.len() as u64).to_le_bytes());
             out.extend_from_slice(b);
         }
@@ -111,6 +133,7 @@ pub const CALL_NAMES: [&str; NCALLS] = [
     "recreate(png container)", "WrapperDecompressZip(frame of the png file)", "WrapperDecompressZip(frame of the zlib file)",
     "corrections(stream, hash=MiniZFast)", "corrections(stream, hash=Libdeflate4)", "corrections(stream, hash=Libdeflate4Fast)",
     "corrections(stream, hash=ZlibNG)", "corrections(stream, hash=RandomVector)", "corrections(stream, hash=Crc32c)",
+    "decompress_zstd(frame without content size)", "compress_zstd(20 MiB file)",
 ];
 
 fn dres<T: AsRef<[u8]>>(r: Result<R<T>, PanicInfo>) -> u64 {
@@ -146,6 +169,8 @@ pub fn call(s: &dyn Subject, id: usize, inp: &Inputs) -> u64 {
         10 => dres(caught(|| recreate_yielding(s, &b[B_CONT2]))),
         11 => dres(caught(|| c_decompress(s, &b[B_Z2], b[B_FPNG].len() + 64))),
         12 => dres(caught(|| c_decompress(s, &b[B_Z], b[B_FSMALL].len() + 64))),
+        19 => dres(caught(|| s.decompress_zstd(&b[B_NOFCS], 1 << 20))),
+        20 => dres(caught(|| s.compress_zstd(&b[B_BIGFILE]))),
         13..=18 => {
             let mut v: Vec<u32> = b[B_HASH0 + 1].chunks(4).map(|c| u32::from_le_bytes(c.try_into().unwrap())).collect();
             v[4] = (id - 13 + 2) as u32;
@@ -202,7 +227,7 @@ fn recreate_yielding(s: &dyn Subject, cont: &[u8]) -> R<Vec<u8>> {
 /// child process entry: prints one line per call to stderr
 pub fn digest_main(s: &dyn Subject, inputs_path: &str, which: &str) {
     let inp = Inputs::load(inputs_path);
-    let ids: Vec<usize> = if which == "all" { (0..NCALLS).collect() } else { vec![which.parse().unwrap()] };
+    let ids: Vec<usize> = if which == "all" { (0..NCALLS).filter(|i| *i != BIG_CALL).collect() } else { vec![which.parse().unwrap()] };
     for id in ids {
         eprintln!("DIGEST {} {:016x}", id, call(s, id, &inp));
     }
@@ -558,7 +583,20 @@ pub fn run_c14(ctx: &Ctx, st: &mut Local) {
             let i = idx;
             idx += 1;
             // every worker needs the baseline; only the owner counts it
-            match child_digests(&path, &id.to_string(), &[], false) {
+            let r = if id == BIG_CALL {
+                if ctx.take(name, i) {
+                    let pb = format!("{}.big", path);
+                    inp.save_opt(&pb, true);
+                    let r = child_digests(&pb, &id.to_string(), &[], false);
+                    let _ = std::fs::remove_file(&pb);
+                    r
+                } else {
+                    Ok(vec![(id, seq[id])])
+                }
+            } else {
+                child_digests(&path, &id.to_string(), &[], false)
+            };
+            match r {
                 Ok(v) => fresh[id] = v[0].1,
                 Err(e) => crate::streams::harness_bug(&format!("cannot run digest child: {}", e)),
             }
@@ -609,7 +647,13 @@ pub fn run_c14(ctx: &Ctx, st: &mut Local) {
             }
             if hist.len() < maxlen {
                 for c in 0..NCALLS {
-                    // the two 64 KiB calls only as first or last element to bound the cost
+                    // the 20 MiB call only as the first element of two-call histories (cost)
+                    if c == BIG_CALL && !hist.is_empty() {
+                        continue;
+                    }
+                    if !hist.is_empty() && hist[0] == BIG_CALL && hist.len() >= 2 {
+                        continue;
+                    }
                     hist.push(c);
                     rec(ctx, st, s, inp, fresh, hist, maxlen, idx);
                     hist.pop();
@@ -619,7 +663,7 @@ pub fn run_c14(ctx: &Ctx, st: &mut Local) {
         rec(ctx, st, s, &inp, &fresh, &mut hist, maxlen, &mut idx);
         let _ = std::fs::remove_file(&path);
         let e = st.eng(name);
-        e.bound = "19 (function, input) calls incl. the C wrappers and the corrections of one stream coded under each hash algorithm; each as the first call of a fresh process; all 19+361+6859 call sequences of length <= 3 in one process, every result compared with the fresh-process result".into();
+        e.bound = "21 (function, input) calls incl. the C wrappers, the corrections of one stream coded under each hash algorithm, a zstd frame without content size and a 20 MiB file; each as the first call of a fresh process; all call sequences of length <= 3 in one process, every result compared with the fresh-process result".into();
         e.exhaustive = true;
     }
 
@@ -692,7 +736,7 @@ pub fn run_c14(ctx: &Ctx, st: &mut Local) {
         let reps = if ctx.quick() { 6 } else { 40 };
         let mut idx = 0u64;
         for id in 0..NCALLS {
-            if id == 8 || id == 9 {
+            if id == 8 || id == 9 || id == BIG_CALL {
                 continue;
             }
             // the calls that differ only in the hash algorithm get more attempts: each of them is the
@@ -739,7 +783,7 @@ pub fn run_c14(ctx: &Ctx, st: &mut Local) {
         let ms: u64 = if ctx.quick() { 3_000 } else { 12_000 };
         let mut idx = 0u64;
         for id in 0..NCALLS {
-            if id == 8 || id == 9 {
+            if id == 8 || id == 9 || id == BIG_CALL {
                 continue;
             }
             // which hook sites does this call reach?
@@ -789,6 +833,7 @@ pub fn run_c14(ctx: &Ctx, st: &mut Local) {
             (vec![vec![1], vec![10], vec![5]], false),
             (vec![vec![6, 7], vec![7, 0]], false),
             (vec![vec![11, 12], vec![12, 11]], false),
+            (vec![vec![19, 7], vec![7, 19]], false),
         ];
         let mut idx = 0u64;
         for (bodies, private) in configs {
@@ -839,7 +884,7 @@ pub fn run_c14(ctx: &Ctx, st: &mut Local) {
         }
         let e = st.eng(name);
         let capped = e.notes.iter().any(|n| n == "cap hit");
-        e.bound = format!("7 thread configurations (2 threads x 2 calls, 3 threads x 1 call; shared and private input buffers) x every schedule with at most {} preemptions at the library's hook points and at every call into the harness Read/Write objects", bound);
+        e.bound = format!("8 thread configurations (2 threads x 2 calls, 3 threads x 1 call; shared and private input buffers) x every schedule with at most {} preemptions at the library's hook points and at every call into the harness Read/Write objects", bound);
         e.exhaustive = !capped;
     }
 
@@ -854,7 +899,7 @@ pub fn run_c14(ctx: &Ctx, st: &mut Local) {
         let own = Inputs { blobs: inp.blobs.clone() };
         for r in 0..rounds {
             for id in 0..NCALLS {
-                if (id == 8 || id == 9) && r % 4 != 0 {
+                if id == BIG_CALL || ((id == 8 || id == 9) && r % 4 != 0) {
                     continue;
                 }
                 barrier.wait();
